@@ -16,8 +16,16 @@ def ring(kind, sub, runs, extra=None, **kw):
     d.update(kw)
     return d
 
+NOT_CLAIMED = {}
+
+LN_RING = ("Theorems are about models M1 (AtomicMove) / M2 (FullSyncMove), not about the Rust text; the tie is the step-level replay "
+           "(every hook point, register value and result of every recorded schedule must agree) - as strong as the schedules explored. "
+           "Sequential consistency assumed; index-based cancel is excluded from the executions the ring theorems quantify over unless the cancel is exact (see cancel_steals in DESIGN.md).")
+
 PROPS = {
  "C01": dict(
+    level_text="Lean 4 proof for every execution (any thread count, schedule, length, buffer size) of the ring models that the Uni channels are built on: delivered sequence numbers are exactly 0..head-1 without repetition, each delivered value is the accepted one, nothing accepted is lost, a rejected send never wrote. Model tied to the code by step-level replay of thousands of scheduled runs; an implementation-side exactly-once oracle produces concrete replays.",
+    level_note=LN_RING,
     lean=["C01"],
     scenarios=[ring("atomic", "mixed", 1600), ring("fullsync", "mixed", 1600)],
     rule=RING_RULE,
@@ -25,6 +33,8 @@ PROPS = {
     assumptions=["payloads are distinct integers (the containers are payload-agnostic)"],
  ),
  "C02": dict(
+    level_text="Lean 4 proof of a forward simulation to a bounded FIFO with fixed linearization points (tail CAS = enqueue, head CAS = dequeue), capacity bound, FIFO of the delivery log, and witness instants for every `empty` and `full` answer, for every execution of the ring models; tied to the code by step-level replay; real-time-order oracle (empty-while-pending, full-while-room, FIFO) on the implementation.",
+    level_note=LN_RING,
     lean=["C02"],
     scenarios=[ring("atomic", "mixed", 1600), ring("fullsync", "mixed", 1600)],
     rule=RING_RULE,
@@ -32,6 +42,8 @@ PROPS = {
     assumptions=["`full` is judged with slots held by sends in progress / reservations counted as taken, as the property states"],
  ),
  "C16": dict(
+    level_text="Lean 4 proof that the reject path of a send writes nothing (frame theorem), that quiescent states have no capacity in flight, that a solo send is rejected within 3 own steps exactly when N are pending and accepted otherwise, and that from every quiescent empty reachable state exactly N sends are accepted - for every reachable state, hence after any number of fill/drain cycles; tied to the code by step-level replay; refill oracle on the implementation.",
+    level_note=LN_RING,
     lean=["C16"],
     scenarios=[ring("atomic", "mixed", 1600), ring("fullsync", "mixed", 1600)],
     rule=RING_RULE,
